@@ -66,7 +66,7 @@ class Flow:
     propagate from arguments to destination when the callee is in the
     propagating table (tables.PROPAGATING) or when `all_calls` is set."""
 
-    def __init__(self, body, all_calls=False, extra_prop=(), skip_deref_writes=False):
+    def __init__(self, body, all_calls=False, extra_prop=(), skip_deref_writes=False, only=None):
         self.body = body
         self.fwd = {}
         self.bwd = {}
@@ -85,6 +85,8 @@ class Flow:
             dst = t['dest']['l']
             n = cname(t)
             prop = all_calls or (n in tables.PROPAGATING) or (n in extra) or tables.propagates(n)
+            if only is not None:
+                prop = n in only
             if prop:
                 for a in t['args']:
                     l = op_local(a)
